@@ -113,14 +113,15 @@ func effectOfRef(in rIns, r evalResult) effect {
 
 // dynIns is one decoded (or, for in-order variants, executed) dynamic instruction.
 type dynIns struct {
-	Seq, Pc  int32
-	Squashed bool
-	Exec     int // index into log, -1 if never executed
-	ExecN    int // number of exec records matched
-	RegWB    int // count of register write-back events
-	Stores   int // count of store-performed events
-	Mode     int // dispatch mode: 0 plain, 1 forward, 2 rename
-	FwdFrom  int32
+	Seq, Pc              int32
+	Squashed             bool
+	Exec                 int // index into log, -1 if never executed
+	ExecN                int // number of exec records matched
+	RegWB                int // count of register write-back events
+	Stores               int // count of store-performed events
+	Mode                 int // dispatch mode: 0 plain, 1 forward, 2 rename
+	FwdFrom              int32
+	DispCycle, ExecCycle int // cycle of the first dispatch event and of the execution record
 }
 
 type lsStats struct {
@@ -176,6 +177,7 @@ func buildDyn(c config, log []risc.VerifRec) ([]dynIns, lsStats, string) {
 				if d.Pc == r.Pc && d.Exec == -1 && !d.Squashed {
 					d.Exec = i
 					d.ExecN = 1
+					d.ExecCycle = r.Cycle
 					found = true
 					break
 				}
@@ -230,6 +232,9 @@ func buildDyn(c config, log []risc.VerifRec) ([]dynIns, lsStats, string) {
 				case risc.VerifKindStore:
 					d.Stores++
 				case risc.VerifKindDispatch:
+					if d.DispCycle == 0 {
+						d.DispCycle = r.Cycle
+					}
 					if int(r.A) > d.Mode {
 						d.Mode = int(r.A)
 					}
@@ -343,8 +348,35 @@ func lockstep(c config, p rProg, ref *refState, obs *observation) lsResult {
 			res.Class = "wrong-result"
 			res.Step = k
 			res.Pc = step.Pc
+			timing := ""
 			res.Sub = explain(p, ref, k, got, obs.Log[d.Exec].Mem, squashedRegVals(dyn, obs))
-			res.Detail = fmt.Sprintf("step %d pc=%d (%s): reference %s, machine %s [%s]", k, step.Pc, in.Text, want, got, res.Sub)
+			if strings.HasPrefix(res.Sub, "future-load") && d.DispCycle > 0 {
+				// A load returned the data of a younger store. Which mechanism?
+				//  reordered: the store was dispatched before, or in the same cycle as, the (older) load, or it executed
+				//             before the load (stalled by back-pressure) captured its bytes;
+				//  miss:      the load was dispatched first but stayed in flight for the memory latency;
+				//  hit:       the load was dispatched first and completed quickly, yet saw the store.
+				kind := "hit"
+				if d.ExecCycle-d.DispCycle >= 200 {
+					kind = "miss"
+				}
+				var dist int
+				if _, err := fmt.Sscanf(res.Sub, "future-load(dist=%d)", &dist); err == nil && k+dist < len(surv) {
+					st := dyn[surv[k+dist]]
+					// a load that hits captures its bytes 50 cycles (the L3 latency) before its execution record
+					if st.DispCycle > 0 && (st.DispCycle <= d.DispCycle || (kind == "hit" && st.ExecCycle > 0 && st.ExecCycle <= d.ExecCycle-50)) {
+						kind = "reordered"
+					}
+				}
+				res.Sub = strings.Replace(res.Sub, "future-load", "future-load-"+kind, 1)
+				timing = fmt.Sprintf(" {load dispatched in cycle %d, executed in %d", d.DispCycle, d.ExecCycle)
+				if k+dist < len(surv) {
+					st := dyn[surv[k+dist]]
+					timing += fmt.Sprintf("; store dispatched in %d, executed in %d", st.DispCycle, st.ExecCycle)
+				}
+				timing += "}"
+			}
+			res.Detail = fmt.Sprintf("step %d pc=%d (%s): reference %s, machine %s [%s]%s", k, step.Pc, in.Text, want, got, res.Sub, timing)
 			return res
 		}
 		if d.ExecN > 1 {
@@ -444,55 +476,48 @@ func explain(p rProg, ref *refState, k int, got effect, gotMem []int8, wrongPath
 		}
 		if !same {
 			addr, sz := step.Res.Addr, step.Res.Size
-			// memory content at [addr,addr+sz) before the m-th most recent older overlapping store
-			cur := append([]int8(nil), step.Loaded...)
-			m := 0
-			for j := k - 1; j >= 0; j-- {
+			// per byte: the values the byte held at any earlier time (initial image and every older store),
+			// and the values younger stores (next 12 steps) give it
+			past := make([]map[int8]bool, sz)
+			future := make([]map[int8]bool, sz)
+			for i := range past {
+				past[i] = map[int8]bool{ref.InitMem[addr+int32(i)]: true}
+				future[i] = map[int8]bool{}
+			}
+			nearest := 0
+			for j := 0; j < len(ref.Trace) && j <= k+12; j++ {
 				t := ref.Trace[j]
-				if t.Res.Store == nil {
+				if t.Res.Store == nil || j == k {
 					continue
 				}
-				lo, hi := t.Res.Addr, t.Res.Addr+t.Res.Size
-				if hi <= addr || lo >= addr+sz {
-					continue
-				}
-				m++
-				// undo store j: need memory before it; recompute by replaying is expensive, so rebuild
-				before := memBefore(ref, p, j, addr, sz)
-				cur = before
-				eq := true
-				for i := range cur {
-					if cur[i] != gotMem[i] {
-						eq = false
+				for x, v := range t.Res.Store {
+					a := t.Res.Addr + int32(x)
+					if a >= addr && a < addr+sz {
+						if j < k {
+							past[a-addr][v] = true
+						} else {
+							future[a-addr][v] = true
+							if nearest == 0 {
+								nearest = j - k
+							}
+						}
 					}
-				}
-				if eq {
-					return fmt.Sprintf("stale-load(k=%d,dist=%d)", m, k-j)
-				}
-				if m >= 6 {
-					break
 				}
 			}
-			// future store?
-			for j := k + 1; j < len(ref.Trace) && j <= k+12; j++ {
-				t := ref.Trace[j]
-				if t.Res.Store == nil {
-					continue
-				}
-				lo, hi := t.Res.Addr, t.Res.Addr+t.Res.Size
-				if hi <= addr || lo >= addr+sz {
-					continue
-				}
-				after := memBefore(ref, p, j+1, addr, sz)
-				eq := true
-				for i := range after {
-					if after[i] != gotMem[i] {
-						eq = false
+			allPast, allKnown := true, true
+			for i := range gotMem {
+				if !past[i][gotMem[i]] {
+					allPast = false
+					if !future[i][gotMem[i]] {
+						allKnown = false
 					}
 				}
-				if eq {
-					return fmt.Sprintf("future-load(dist=%d)", j-k)
-				}
+			}
+			if allPast {
+				return "stale-load"
+			}
+			if allKnown {
+				return fmt.Sprintf("future-load(dist=%d)", nearest)
 			}
 			loadDataWrong = true
 		}
